@@ -518,6 +518,16 @@ class CallMixin:
         return bound
 
     def call_func(self, f: VFunc, args, kwargs) -> V:
+        if self.spec_mode and not getattr(f.module, "is_spec", False):
+            # a repository function applied inside a quantified expression (any/all over a symbolic
+            # sequence): only possible through a *functional* contract: value(params) is the result
+            # whenever the call returns; that it cannot raise there is the enclosing contract's
+            # stated precondition
+            c0 = self.registry.contract_for(f.qualname)
+            if c0 is not None and "value" in c0.funcs:
+                bound = self.bind_args(f.node, args, kwargs, Env(f.module, {}, f.closure, cls=f.owner))
+                self.called.add(c0.target)
+                return self.eval_contract_fn(c0, "value", dict(bound))
         if getattr(f.module, "is_spec", False) or self.spec_mode:
             return self.call_spec(f, args, kwargs)
         c = self.registry.contract_for(f.qualname)
@@ -731,6 +741,15 @@ class CallMixin:
 
                 bound[pn] = chunks_of(self, joined(self, v).t)
                 continue
+            want = {"str": VStr, "bytes": VStr, "int": (VInt, VBool), "bool": VBool}.get(kind)
+            vd = self.deref(v) if v is not None else None
+            if want is not None and vd is not None and not isinstance(vd, (VOpt, vals.VBottom)) and not isinstance(vd, want):
+                # the argument is not of the type the callee is written for (e.g. a list where a
+                # string is expected): the call cannot meet the callee's contract
+                self.path.oblige(f"{caller}#pre:{c.short}:{pn}-type@{self.call_counts.get((caller, c.short), 0)}",
+                                 z3.BoolVal(False), line=line, kind="pre",
+                                 note=f"argument {pn} is a {vd.kind}, the callee expects {kind}")
+                raise PathEnd()
             if isinstance(v, VOpt) and not kind.startswith("opt["):
                 # a possibly-None argument for a parameter the contract types as non-optional
                 self.path.oblige(f"{caller}#pre:{c.short}:{pn}-not-None@{self.call_counts.get((caller, c.short), 0)}",
